@@ -291,7 +291,8 @@ def emit_unit(unit, outdir):
         bad = sorted(set(forbidden) & after)
         if bad:
             raise Undecided('%s: the code after the cut point still reads %s; the factorisation argument does not apply' % (unit.id, bad))
-    prelude = PRELUDE + unit.prelude + '\n'
+    unit_prelude = unit.prelude() if callable(unit.prelude) else unit.prelude     # a callable is evaluated at emission time (run-time generated certificates)
+    prelude = PRELUDE + unit_prelude + '\n'
     uf_abstracted = []
     for (g, gpre, gpost) in unit.replace:
         gcn = X.cname_of(g)
@@ -307,7 +308,7 @@ def emit_unit(unit, outdir):
             uf_abstracted.append(ex.funcs[gcn]['qual'] + '::' + (ex.funcs[gcn]['name'] or ''))
         else:
             ex.contracts[gcn] = contract_text(ex.funcs[gcn], gpre, gpost)
-    if 'vf_sqrt' in ex.externals and 'vf_sqrt' not in unit.prelude:
+    if 'vf_sqrt' in ex.externals and 'vf_sqrt' not in unit_prelude:
         prelude += 'double vf_sqrt(double x);   /* external: C library sqrt */\n'
     hname = 'vf_harness'
     text = ex.emit(extra_prelude=prelude, extra_tail=harness_text(f, cn, hname, not unit.no_canary))
